@@ -4,9 +4,9 @@ from .ir import Ptr, NULL, UNDEF, sgn
 
 class SV:
     """symbolic integer (z3 Int term, signed canonical value of an iN) or boolean (z3 Bool, w == 1)"""
-    __slots__ = ('t', 'lo', 'hi', 'b', 'taint', 'sz')
-    def __init__(s, t, lo, hi, b=None, taint=False, sz=1):
-        s.t = t; s.lo = lo; s.hi = hi; s.b = b; s.taint = taint; s.sz = sz
+    __slots__ = ('t', 'lo', 'hi', 'b', 'taint', 'sz', 'al')
+    def __init__(s, t, lo, hi, b=None, taint=False, sz=1, al=0):
+        s.t = t; s.lo = lo; s.hi = hi; s.b = b; s.taint = taint; s.sz = sz; s.al = al   # al: number of low bits known to be zero
     def __repr__(s): return 'SV(%s,[%s,%s])' % (str(s.t)[:80], s.lo, s.hi)
 
 class SF:
